@@ -3,6 +3,21 @@ namespace AranyaV.Lang
 open AranyaV.Gen.Lang
 
 /-! ## the fragment covered by `typecheck_sound_partial` -/
+
+/-- the last arm is the default arm (`_ =>`) -/
+def endsDefaultE : List (Pat × Expr) → Bool
+  | [] => false
+  | [(.default, _)] => true
+  | _ :: rest => endsDefaultE rest
+def endsDefaultS : List (Pat × List Stmt) → Bool
+  | [] => false
+  | [(.default, _)] => true
+  | _ :: rest => endsDefaultS rest
+def endsDefaultP : List Pat → Bool
+  | [] => false
+  | [.default] => true
+  | _ :: rest => endsDefaultP rest
+
 mutual
 def fragE : Expr → Bool
   | .unit | .int _ | .str _ | .bool _ | .none | .todo | .var _ | .enumRef _ _ _ => true
@@ -12,18 +27,34 @@ def fragE : Expr → Bool
   | .eq a b | .ne a b | .gt a b | .lt a b | .ge a b | .le a b => fragE a && fragE b
   | .ite c t f => fragE c && fragE t && fragE f
   | .call _ args => fragArgs args
+  | .ffi _ _ _ args => fragArgs args
+  | .struct _ fields srcs => srcs.isEmpty && fragFields fields
+  | .dot e _ => fragE e
   | .block ss e => fragSs ss && fragE e
-  | .ffi _ _ _ _ | .struct _ _ _ | .dot _ _ | .cast _ _ | .substruct _ _ | .mtch _ _ => false
+  | .mtch scrut arms => fragE scrut && fragArmsE arms && endsDefaultE arms
+  | .cast _ _ | .substruct _ _ => false
+def fragPat : Pat → Bool
+  | .default => true
+  | .values vs => fragArgs vs && (decide (vs.length ≤ 1) || vs.all (fun v => (bindingOf v).isNone))
+def fragArmsE : List (Pat × Expr) → Bool
+  | [] => true
+  | (pt, e) :: rest => fragPat pt && fragE e && fragArmsE rest
+def fragArmsS : List (Pat × List Stmt) → Bool
+  | [] => true
+  | (pt, ss) :: rest => fragPat pt && fragSs ss && fragArmsS rest
 def fragArgs : List Expr → Bool
   | [] => true
   | e :: es => fragE e && fragArgs es
+def fragFields : List (Nat × Expr) → Bool
+  | [] => true
+  | (_, e) :: rest => fragE e && fragFields rest
 def fragS : Stmt → Bool
   | .let_ _ e => fragE e
   | .check c els => fragE c && fragE els
   | .ifS brs _ els => fragBrs brs && fragSs els
   | .ret e => fragE e
   | .dassert e => fragE e
-  | .mtch _ _ => false
+  | .mtch scrut arms => fragE scrut && fragArmsS arms && endsDefaultS arms
 def fragSs : List Stmt → Bool
   | [] => true
   | s :: ss => fragS s && fragSs ss
@@ -34,6 +65,8 @@ end
 
 def LCtx.withRet (cx : LCtx) (rt : Ty) : LCtx := { cx with retTy := rt }
 
+theorem GOk.withRet {cx : LCtx} {p : Program} (h : GOk cx p) (rt : Ty) : GOk (cx.withRet rt) p := ⟨h.eq, h.fit⟩
+
 /-- outcome predicate: never stuck; values satisfy `P`, early returns satisfy `Q` -/
 def ROk {α : Type} (P : α → Prop) (Q : Val → Prop) : Res α → Prop
   | .val a _ => P a
@@ -41,9 +74,9 @@ def ROk {α : Type} (P : α → Prop) (Q : Val → Prop) : Res α → Prop
   | .stuck => False
   | _ => True
 
-def ArgsFit : List Val → List Ty → Prop
+def ArgsFit (p : Program) : List Val → List Ty → Prop
   | [], [] => True
-  | v :: vs, t :: ts => v.fitsType t = true ∧ ArgsFit vs ts
+  | v :: vs, t :: ts => Fit p v t ∧ ArgsFit p vs ts
   | _, _ => False
 
 /-- a lowered function of the fragment -/
@@ -54,34 +87,72 @@ def FunOk (cx : LCtx) (fd : FunDef) : Prop :=
     lowerStmts (cx.withRet fd.ret) sc0 body0 = some (fd.body, sc1) ∧ fragSs body0 = true
 
 structure Ctx (cx : LCtx) (p : Program) : Prop where
-  hg : cx.globals = []
-  hpg : p.globals = []
+  hG : GOk cx p
+  /-- contract of the foreign functions: on arguments fitting the declared parameter types they
+  do not report a conversion failure, and what they return fits the declared return type -/
+  hffi : ∀ mi pi m fns (sig : FfiSig), cx.ffiMods[mi]? = some (m, fns) → fns[pi]? = some sig →
+    (∀ t ∈ sig.args, t.neverFree = true) ∧
+    ∀ vs, ArgsFit p vs sig.args → (match p.ffi mi pi vs with
+      | .bad => False
+      | .ret v => Fit p v sig.ret
+      | .fail => True)
+  /-- the struct definitions the lowering pass consults are the program's -/
+  hS : ∀ n d, cx.structDef n = some d → p.structDef n = some d
+  hSnf : ∀ n d, p.structDef n = some d → ∀ q ∈ d, q.2.neverFree = true
+  hSnd : ∀ n d, p.structDef n = some d → (d.map (·.1)).Nodup
   hbuiltin : ∀ f, isBuiltin f = true → cx.sigs.find? (·.1 == f) = builtinSigs.find? (·.1 == f)
   hcall : ∀ f g params rt, isBuiltin f = false → cx.sigs.find? (·.1 == f) = some (g, params, rt) →
     ∃ fd, p.funDef f = some fd ∧ fd.params = params ∧ fd.ret = rt ∧ FunOk cx fd
 
-abbrev FitV (t : Ty) : Val → Prop := fun v => v.fitsType t = true
+abbrev FitV (p : Program) (t : Ty) : Val → Prop := fun v => Fit p v t
+
+/-- the patterns of a match, lowered left to right with the scrutinee type being refined -/
+inductive PatsLow (cx : LCtx) (sc : Scopes) : Ty → List Pat → List Pat → Prop where
+  | nil (st : Ty) : PatsLow cx sc st [] []
+  | cons {st st' : Ty} {pat pat' : Pat} {bs : List (Nat × Ty)} {rest rest' : List Pat} :
+      lowerPat cx sc st pat = some (st', pat', bs) → fragPat pat = true → PatsLow cx sc st' rest rest' →
+      PatsLow cx sc st (pat :: rest) (pat' :: rest')
+
+/-- the selected arm's binding pattern (if it has one) matches the scrutinee's wrapper -/
+def BindOk (v : Val) : Pat → Prop
+  | .default => True
+  | .values vs => ∀ w x, firstBinding vs = some (w, x) → isWrap w v = true
+
+/-- invariant of the struct under construction: conforming values inside, and every field that is
+set and declared fits its declared type -/
+def FldInv (p : Program) (d : List (Nat × Ty)) (afs : List (Nat × Val)) : Prop :=
+  wfFields p afs ∧ ∀ k v, getField afs k = some v → ∀ q, d.find? (·.1 == k) = some q → v.fitsType q.2 = true
 
 structure Snd (cx : LCtx) (p : Program) (n : Nat) : Prop where
   e : ∀ rt sc e e' t env log, fragE e = true → lowerExpr (cx.withRet rt) sc e = some (e', t) → rt.neverFree = true →
-    EnvOk sc env → ROk (FitV t) (FitV rt) (evalExpr p n env log e')
+    EnvOk p sc env → ROk (FitV p t) (FitV p rt) (evalExpr p n env log e')
   args : ∀ rt sc pts es es' env log, fragArgs es = true → pts.length = es.length →
     lowerArgs (cx.withRet rt) sc pts es = some es' → (∀ t ∈ pts, t.neverFree = true) → rt.neverFree = true →
-    EnvOk sc env → ROk (fun vs => ArgsFit vs pts) (FitV rt) (evalArgs p n env log es')
+    EnvOk p sc env → ROk (fun vs => ArgsFit p vs pts) (FitV p rt) (evalArgs p n env log es')
   ss : ∀ rt sc ss ss' sc' env log, fragSs ss = true → lowerStmts (cx.withRet rt) sc ss = some (ss', sc') → rt.neverFree = true →
-    EnvOk sc env → ROk (fun env' => EnvOk sc' env') (FitV rt) (evalStmts p n env log ss')
+    EnvOk p sc env → ROk (fun env' => EnvOk p sc' env') (FitV p rt) (evalStmts p n env log ss')
   s : ∀ rt sc s s' sc' env log, fragS s = true → lowerStmt (cx.withRet rt) sc s = some (s', sc') → rt.neverFree = true →
-    EnvOk sc env → ROk (fun env' => EnvOk sc' env') (FitV rt) (evalStmt p n env log s')
+    EnvOk p sc env → ROk (fun env' => EnvOk p sc' env') (FitV p rt) (evalStmt p n env log s')
   scp : ∀ rt sc ss ss' sc' env log, fragSs ss = true → lowerStmts (cx.withRet rt) ([] :: sc) ss = some (ss', sc') → rt.neverFree = true →
-    EnvOk sc env → ROk (fun env' => EnvOk sc env') (FitV rt) (evalScoped p n env log ss')
+    EnvOk p sc env → ROk (fun env' => EnvOk p sc env') (FitV p rt) (evalScoped p n env log ss')
   br : ∀ rt sc brs brs' (hasElse : Bool) els els' env log, fragBrs brs = true → fragSs els = true →
     lowerBranches (cx.withRet rt) sc brs = some brs' →
     (hasElse = true → ∃ scE, lowerStmts (cx.withRet rt) ([] :: sc) els = some (els', scE)) → rt.neverFree = true →
-    EnvOk sc env → ROk (fun env' => EnvOk sc env') (FitV rt) (evalBranches p n env log brs' hasElse els')
-  call : ∀ f fd vs log, p.funDef f = some fd → FunOk cx fd → ArgsFit vs (fd.params.map (·.2)) →
-    ROk (FitV fd.ret) (fun _ => False) (evalCall p n f vs log)
+    EnvOk p sc env → ROk (fun env' => EnvOk p sc env') (FitV p rt) (evalBranches p n env log brs' hasElse els')
+  flds : ∀ rt sc d fs fs' env log name afs, fragFields fs = true → lowerFields (cx.withRet rt) sc d fs = some fs' →
+    (∀ q ∈ d, q.2.neverFree = true) → rt.neverFree = true → EnvOk p sc env → FldInv p d afs →
+    ROk (fun v => ∃ fsF, v = .struct name fsF ∧ FldInv p d fsF ∧
+        ∀ k, ((getField afs k).isSome = true ∨ k ∈ fs'.map (·.1)) → (getField fsF k).isSome = true) (FitV p rt)
+      (evalFields p n env log d fs' (.struct name afs))
+  mv : ∀ rt sc st vs stF vs' bs env log v, fragArgs vs = true → lowerPatValsE (cx.withRet rt) sc st vs = some (stF, vs', bs) →
+    rt.neverFree = true → EnvOk p sc env → ROk (fun (_ : Bool) => True) (FitV p rt) (matchVals p n env log v vs')
+  sel : ∀ rt sc st pats pats' env log v k, PatsLow (cx.withRet rt) sc st pats pats' → endsDefaultP pats = true →
+    rt.neverFree = true → EnvOk p sc env →
+    ROk (fun j => ∃ i pat, j = k + i ∧ pats'[i]? = some pat ∧ BindOk v pat) (FitV p rt) (selectArm p n env log v pats' k)
+  call : ∀ f fd vs log, p.funDef f = some fd → FunOk cx fd → ArgsFit p vs (fd.params.map (·.2)) →
+    ROk (FitV p fd.ret) (fun _ => False) (evalCall p n f vs log)
 
 theorem snd_zero (cx : LCtx) (p : Program) : Snd cx p 0 := by
-  constructor <;> intros <;> simp [evalExpr, evalArgs, evalStmts, evalStmt, evalScoped, evalBranches, evalCall, ROk]
+  constructor <;> intros <;> simp [evalExpr, evalArgs, evalStmts, evalStmt, evalScoped, evalBranches, evalCall, evalFields, matchVals, selectArm, ROk]
 
 end AranyaV.Lang
